@@ -18,7 +18,8 @@ fn key(b: u8, idx: u32) -> Vec<u8> {
 macro_rules! flush_before_rename {
     ($name:ident, $entries:expr, $k:expr) => {
         #[kani::proof]
-        #[kani::unwind(14)]
+        #[kani::stub(std::io::Error::is_interrupted, crate::verif_models::fs::stub_not_interrupted)]
+#[kani::unwind(7)] // small on purpose: io::Error/Box<dyn Error> drop glue and Error::cause recurse through vtables; CBMC unrolls that recursion to the bound (exponential)
         fn $name() {
             const K: usize = $k;
             unsafe { fmtm::CONST_ROWS.v = true; if K < gfs::NSCHED { gfs::FAULT_AT.v[K] = true; } }
